@@ -34,7 +34,11 @@ CONSTANTS MaxP,       \* "edge" cases: the consumer has 0..MaxP parameters
 
 \* ---------------------------------------------------------------- domain
 PNames == <<"a", "b", "c">>
-Anns == {"", "int", "str"}
+Anns == {"", "int", "str"}                        \* annotations of "bind" cases
+\* annotations of one-edge cases (producer: always; consumer: when it has one parameter; else Anns): two of them are related by subclassing to int (bool below, object above), str is unrelated
+EAnns == {"", "int", "str", "bool", "object"}
+\* declared type t1 is the type t2 or a subclass of it (Python: bool <= int <= object, str <= object)
+SubType(t1, t2) == t1 = t2 \/ t2 = "object" \/ (t1 = "bool" /\ t2 = "int")
 NoVal == [t |-> "none", v |-> ""]
 DefaultVals == {[t |-> "int", v |-> "5"], [t |-> "str", v |-> "d"]}
 GivenVals == {[t |-> "int", v |-> "1"], [t |-> "str", v |-> "kv"]} \cup (IF NVals >= 3 THEN {[t |-> "str", v |-> "v"]} ELSE {})
@@ -44,10 +48,10 @@ GivenVals == {[t |-> "int", v |-> "1"], [t |-> "str", v |-> "kv"]} \cup (IF NVal
 ValidParams(ps) ==
   /\ \A i, j \in DOMAIN ps : i < j /\ ps[i].kind = "ko" => ps[j].kind = "ko"
   /\ \A i, j \in DOMAIN ps : i < j /\ ps[i].kind = "pk" /\ ps[j].kind = "pk" /\ ps[i].dflt # NoVal => ps[j].dflt # NoVal
-ParamChoices(i, dflts) == {[name |-> PNames[i], kind |-> k, ann |-> a, dflt |-> d] : k \in {"pk", "ko"}, a \in Anns, d \in dflts}
-RECURSIVE ParamSeqs(_, _)
-ParamSeqs(n, dflts) == IF n = 0 THEN {<<>>} ELSE {Append(s, p) : s \in ParamSeqs(n - 1, dflts), p \in ParamChoices(n, dflts)}
-ParamLists(maxn, dflts) == {ps \in UNION {ParamSeqs(n, dflts) : n \in 0..maxn} : ValidParams(ps)}
+ParamChoices(i, anns, dflts) == {[name |-> PNames[i], kind |-> k, ann |-> a, dflt |-> d] : k \in {"pk", "ko"}, a \in anns, d \in dflts}
+RECURSIVE ParamSeqs(_, _, _)
+ParamSeqs(n, anns, dflts) == IF n = 0 THEN {<<>>} ELSE {Append(s, p) : s \in ParamSeqs(n - 1, anns, dflts), p \in ParamChoices(n, anns, dflts)}
+ParamLists(maxn, anns, dflts) == {ps \in UNION {ParamSeqs(n, anns, dflts) : n \in 0..maxn} : ValidParams(ps)}
 
 NPk(ps) == Cardinality({i \in DOMAIN ps : ps[i].kind = "pk"})
 RECURSIVE ValSeqs(_)
@@ -59,7 +63,7 @@ Rets(args, kw) == IF args = <<>> /\ \A nm \in DOMAIN kw : kw[nm] = NoVal THEN {"
 BindOf(ps) == UNION {UNION {{[kind |-> "bind", params |-> ps, ret |-> r, args |-> args, kw |-> kw, split |-> sp]
                                : r \in Rets(args, kw), sp \in (IF k > 0 THEN {FALSE, TRUE} ELSE {FALSE})}
                               : args \in ValSeqs(k), kw \in KwChoices(ps, k)} : k \in 0..NPk(ps)}
-Bind == UNION {BindOf(ps) : ps \in ParamLists(MaxPB, DefaultVals \cup {NoVal}) \cup ParamLists(MaxPB0, {NoVal})}
+Bind == UNION {BindOf(ps) : ps \in ParamLists(MaxPB, Anns, DefaultVals \cup {NoVal}) \cup ParamLists(MaxPB0, Anns, {NoVal})}
 
 EdgeShapes == {[st |-> st, so |-> so, dt |-> dt, mode |-> m[1], into |-> m[2]]
                  : st \in {"t1", "nope"}, so \in {"0", "zz"}, dt \in {"t2", "nope"},
@@ -69,9 +73,9 @@ SecondShapes == {[st |-> "t1", so |-> "0", dt |-> "t2", mode |-> "kw", into |-> 
                  [st |-> "t1", so |-> "0", dt |-> "nope", mode |-> "kw", into |-> "a"],
                  [st |-> "t1", so |-> "0", dt |-> "t2", mode |-> "ps", into |-> "1"]}
 Edge1 == {[kind |-> "edge", ret |-> r, params |-> ps, edges |-> <<e>>]
-            : r \in Anns, ps \in ParamLists(MaxP, {NoVal}), e \in EdgeShapes}
+            : r \in EAnns, ps \in ParamLists(1, EAnns, {NoVal}) \cup ParamLists(MaxP, Anns, {NoVal}), e \in EdgeShapes}
 Edge2 == {[kind |-> "edge", ret |-> r, params |-> ps, edges |-> <<e, f>>]
-            : r \in Anns, ps \in ParamLists(MaxP2, {NoVal}), e \in EdgeShapes, f \in SecondShapes}
+            : r \in Anns, ps \in ParamLists(MaxP2, Anns, {NoVal}), e \in EdgeShapes, f \in SecondShapes}
 
 BindJson(c) == [kind |-> "bind", params |-> c.params, ret |-> c.ret, args |-> c.args, split |-> c.split,
                 kw |-> SetToSeq({<<nm, c.kw[nm]>> : nm \in {x \in DOMAIN c.kw : c.kw[x] # NoVal}})]
@@ -85,7 +89,7 @@ OutSchema(ret) == {<<"0", TypeName(ret)>>}
 Defaults(ps) == {<<ps[i].name, ps[i].dflt>> : i \in {j \in DOMAIN ps : ps[j].dflt # NoVal}}
 \* declared types `t1 -> t2`: "yes", "no", or "open" (an un-annotated producer feeding an annotated parameter: the property
 \* does not say whether that is compatible, so either answer is accepted - but an answer it must be)
-Compat(t1, t2) == IF t2 = "Any" \/ t1 = t2 THEN "yes" ELSE IF t1 = "Any" THEN "open" ELSE "no"
+Compat(t1, t2) == IF t2 = "Any" THEN "yes" ELSE IF t1 = "Any" THEN "open" ELSE IF SubType(t1, t2) THEN "yes" ELSE "no"
 
 \* edge e against the described tasks: the set of things wrong with it
 TaskIns(c, t) == IF t = "t2" THEN InSchema(c.params) ELSE {}
